@@ -112,7 +112,13 @@ class ProgGen:
         for p, pt in zip(params, ptypes):
             self.env[p] = pt
         try:
-            body = self.expr(body_ty, depth)
+            if r.random() < 0.1:
+                # a lambda that merely forwards its parameters to a builtin: its body is still a node evaluated per call
+                f = r.choice(['str', 'abs', 'len', 'round', 'floor', 'list', 'max', 'min'] if len(params) == 1 else ['max', 'min', 'list', 'round'])
+                body = ['call', f, [['name', p] for p in params], 'plain' if r.random() < 0.7 else gen.sugar(r, len(params))]
+                self.kinds.add('forwarding_lambda')
+            else:
+                body = self.expr(body_ty, depth)
         finally:
             self.env = saved
         self.kinds.add('lambda')
